@@ -12,6 +12,7 @@ import (
 	"time"
 
 	"github.com/cloudwego/hertz/pkg/app"
+	"github.com/cloudwego/hertz/pkg/network"
 	"github.com/cloudwego/hertz/pkg/network/standard"
 	"github.com/cloudwego/hertz/pkg/protocol"
 	"github.com/cloudwego/hertz/pkg/protocol/consts"
@@ -66,6 +67,14 @@ func runProg(ctx *app.RequestContext, toks []string) {
 		case "BS":
 			n, _ := strconv.Atoi(p[1])
 			ctx.SetBodyStream(&piecesReader{parsePieces(p[2])}, n)
+		case "HJ": // X04: the handler hijacks the connection (the hijack handler itself writes nothing)
+			ctx.Hijack(func(c network.Conn) {})
+		case "BE": // X04: like BS, the stream ends with an error that is not io.EOF (type in c04seq.go)
+			n, _ := strconv.Atoi(p[1])
+			ctx.SetBodyStream(&piecesReaderX{pieces: parsePieces(p[2]), endErr: errStreamBroken}, n)
+		case "BT": // X04: like BS, the last bytes come together with io.EOF
+			n, _ := strconv.Atoi(p[1])
+			ctx.SetBodyStream(&piecesReaderX{pieces: parsePieces(p[2]), together: true}, n)
 		case "LR":
 			n, _ := strconv.Atoi(p[1])
 			ctx.SetBodyStream(io.LimitReader(&piecesReader{parsePieces(p[2])}, int64(n)), -1)
@@ -393,4 +402,5 @@ func genC04(tier string, rng *Rng) {
 		}
 		runOp(args)
 	}
+	genC04Seq(tier, rng) // X04: what follows a response on the connection (c04seq.go)
 }
